@@ -63,6 +63,9 @@ func (l *lowerer) stmt(s *Stmt, brk, cont string) {
 		l.label(s.Name)
 	case SGoto:
 		l.emit(machine.Ins{Op: machine.OpGoto, Target: s.Name})
+	case SGotoIf:
+		// a conditional jump command: jump when the flag has the wanted state, else go on
+		l.emit(machine.Ins{Op: machine.OpIfFlag, Name: s.Flag, Want: s.WantSet, Target: s.Name})
 	case SBreak:
 		l.emit(machine.Ins{Op: machine.OpGoto, Target: brk})
 	case SContinue:
